@@ -87,16 +87,24 @@ fn check_quant(st: &mut Stats, env: &BDDEnv<usize>, uni: &[usize], f: &(D, Tt), 
             st.sample(json!({"call": format!("{}({:?}, f)", kind, list), "f": short(&f.0), "result": short(&r)}));
         }
     }
-    // exists_impl directly, for singleton lists
-    if list.len() == 1 {
+    // the single-variable step called DIRECTLY, right after the universal quantification above (of
+    // any list length, so also after one that ended early on a constant): for the last and the
+    // first listed variable
+    let mut singles: Vec<usize> = Vec::new();
+    for v in [list.last(), list.first()].into_iter().flatten() {
+        if !singles.contains(v) {
+            singles.push(*v);
+        }
+    }
+    for v in singles {
         st.evals += 1;
         st.bump("exists_impl");
         let case = json!({"kind": "exists_impl", "f": f.1.hex(), "universe": labels_json(uni), "list": labels_json(list)});
-        match guarded(|| env.exists_impl(&list[0], Rc::clone(&f.0))) {
+        match guarded(|| env.exists_impl(&v, Rc::clone(&f.0))) {
             Ok(r) => {
-                let want = f.1.exists(idx(&list[0]).unwrap());
+                let want = f.1.exists(idx(&v).unwrap());
                 if tt_of_bdd(&r, n, &idx).ok().as_ref() != Some(&want) {
-                    st.violate("c04.semantics", "C04:exists_impl:wrong-value".into(), format!("exists_impl({}, {}) = {} expected table {}", list[0], short(&f.0), short(&r), want.hex()), case);
+                    st.violate("c04.semantics", "C04:exists_impl:wrong-value".into(), format!("exists_impl({}, {}) — called right after all({:?}, ..) in the same environment — = {} expected table {}", v, short(&f.0), list, short(&r), want.hex()), case);
                 }
             }
             Err(c) => st.violate("c04.panic", format!("C04:exists_impl:{}", c.signature()), format!("{:?}", c), case),
@@ -337,6 +345,9 @@ pub fn run(ctx: &Ctx) -> (Stats, Spec) {
     if stride == 1 {
         st.exhaustive.push("all 65 536 functions over 4 variables x all lists of length <= 3 x {exists, all} x 2 label families".into());
     }
+    // one environment in which kept functions are quantified again exactly 65 536 (256) operations later
+    let parts = util::par_jobs(2, |job| super::c13::periodic_revisit_job(ctx, "C04", if job == 0 { 65_536 } else { 256 }, if job == 0 { 3 } else { 30 }));
+    st.merge(crate::report::merge_all(parts));
     let iters = ctx.tier.pick(15_000u64, 300_000u64);
     let parts = util::par_jobs(16, |job| {
         let mut s = random_job(ctx, job, iters);
@@ -371,6 +382,13 @@ pub fn run(ctx: &Ctx) -> (Stats, Spec) {
 pub fn replay(_ctx: &Ctx, _monitor: &str, case: &Value, st: &mut Stats) {
     if case.get("kind").and_then(|k| k.as_str()) == Some("wide") {
         super::wide::replay_wide(_ctx, "C04", case, st);
+        return;
+    }
+    if case.get("kind").and_then(|k| k.as_str()) == Some("periodic") {
+        let g = |k: &str| case.get(k).and_then(|j| j.as_u64()).unwrap_or(0);
+        let mut c2 = _ctx.clone();
+        c2.seed = g("seed");
+        st.merge(super::c13::periodic_revisit_job(&c2, "C04", g("period").max(2) as usize, g("rounds").max(2) as usize));
         return;
     }
     if case.get("kind").and_then(|k| k.as_str()) == Some("weak-hash") {
